@@ -502,11 +502,15 @@ def rand_string(rng, maxlen=12):
         elif k == 3:
             cp = rng.randint(0x10000, 0x10FFFF)
         else:
-            cp = rng.choice([32, 65, 97, 48, 0xE9, 0x65E5])
+            cp = rng.choice([32, 65, 97, 48, 0xE9, 0x65E5, 0xFEFF, 0xFFFE, 0xFFFD, 0x200B, 0x2028, 0x85, 0x7F, 0x80, 0x7FF, 0x800, 0xFFFF, 0x10000])
         if 0xD800 <= cp <= 0xDFFF or cp == 34 or cp == 0:
             cp = 0x20
         out.append(chr(cp))
-    return "".join(out)
+    s = "".join(out)
+    if rng.random() < 0.06:
+        # a byte-order mark / odd code point right at the start or the end
+        s = rng.choice(["\ufeff", "\ufffe", "\u200b", "\ufeff\ufeff"]) + s if rng.random() < 0.7 else s + "\ufeff"
+    return s
 
 
 def run(chk):
@@ -564,8 +568,12 @@ def run(chk):
             jobs.append(("law_utf8", [rand_string(rng)]))
         elif k == 3:
             L = rng.choice([0, 1, 2, 5, 20, 21, 50, 300 if not quick else 60])
-            c = rng.randrange(6)
-            if c == 0:
+            c = rng.randrange(7)
+            if c == 6:
+                # integers too large / too close to be told apart as doubles
+                base = rng.choice([1 << 53, (1 << 53) + 1, 1 << 60, (1 << 62) + 3, I64_MAX - 300, I64_MIN + 300, -(1 << 53) - 5, 1700000000123456789])
+                arr = [base + rng.randint(-300, 300) if rng.random() < 0.9 else rng.choice([I64_MAX, I64_MIN, 0]) for _ in range(L)]
+            elif c == 0:
                 arr = [rng.randint(-50, 50) for _ in range(L)]
             elif c == 1:
                 arr = [rng.choice([rng.uniform(-10, 10), float(rng.randint(-5, 5)), math.inf, -math.inf]) for _ in range(L)]
